@@ -119,6 +119,36 @@ def replay_cases_shared(run, cases, prefix, chunk=60):
                           {'kind': 'stream', 'case': c, 'note': 'needs the earlier scans of the series on the same Decoder object'})
 
 
+def _work_after_definitions(cs):
+    """The cases of a chunk in a process that has read table-definition messages from a stream before (the prepbufr sample): an
+    undefined descriptor is still undefined, damage is still damage."""
+    import contextlib
+    import io
+    from pybufrkit.decoder import Decoder, generate_bufr_message
+    with open(os.path.join(REPO, 'tests', 'data', 'prepbufr.bufr'), 'rb') as f:
+        data = f.read()
+    with contextlib.redirect_stderr(io.StringIO()):
+        for k, m in enumerate(generate_bufr_message(Decoder(), data)):
+            if k >= 2:
+                break
+    return [run_case(c) for c in cs]
+
+
+def replay_cases_after_definitions(run, cases, prefix, chunk=80):
+    import multiprocessing as mp
+    from . import fm94
+    chunks = [cases[i:i + chunk] for i in range(0, len(cases), chunk)]
+    if not chunks:
+        return
+    with mp.get_context('fork').Pool(14, initializer=fm94._init_worker) as pool:
+        out = [x for c in pool.map(_work_after_definitions, chunks) for x in c]
+    for c, bad in zip(cases, out):
+        run.traces += 1
+        if bad:
+            run.violation((prefix, 'after-definitions') + tuple(bad[0]), 'in a process that has read in-stream table definitions: ' + bad[1],
+                          {'kind': 'stream', 'case': c, 'note': 'needs a table-definition message (tests/data/prepbufr.bufr) scanned in the same process first'})
+
+
 def replay_cases(run, cases, prefix):
     import multiprocessing as mp
     from . import fm94
